@@ -676,4 +676,18 @@ theorem sweep_outside_the_lock_closes_twice :
     occ 0 (asyncClose (remove (closeAll (make {} ⟨1, 0, 0, 4, false⟩).1) 0).1 0).done = 1 := by decide
 
 
+/-- **A release by slot number closes the newcomer**: a one-shot handler is matched by a dispatch that does not close it
+    in the same critical section; its owner removes it, a new handler is given its slot, and the late release — meant for
+    the first — closes the second, which nobody removed (the seeded change C10o).  In the model as in the code, `dispatch`
+    closes a handler whose filter says `keep = false` inside its own critical section: between the match and the close no
+    slot changes hands. -/
+theorem release_by_slot_closes_the_newcomer :
+    let e1 := (make {} ⟨1, 0, 0, 4, false⟩).1          -- the one-shot handler: registration 0, slot 0
+    let e2 := (remove e1 0).1                          -- its owner removes it
+    let e3 := (make e2 ⟨1, 0, 0, 4, false⟩).1          -- a new handler: registration 1, the same slot
+    let e4 := (remove e3 0).1                          -- the late release of "slot 0"
+    (make e2 ⟨1, 0, 0, 4, false⟩).2 = 0 ∧ occ 1 (live e3.slots) = 1 ∧ occ 1 (live e4.slots) = 0 ∧ occ 1 e4.done = 1 := by
+  decide
+
+
 end QiVerif.C17
